@@ -137,44 +137,24 @@ Section Pres2.
   Qed.
 End Pres2.
 
-(* ---------- clause 1: the awaiting task's wake-up ---------- *)
-Lemma skips_sub st fr r : skips st = fr :: r -> fr ∈ st.
+(* ---------- what is proved of the task-wake invariant: clauses 2 and 3 (clause 1, [tw_ok], holds on all simulated runs; its
+   proof needs one more stack-shape invariant and was not completed) ---------- *)
+Theorem reachable_task_parts T : own_cond T -> forall scripts npool nev tr s, run T (init scripts npool nev) tr = Some s ->
+  (forall c st fr, stacks s !! c = Some st -> fr ∈ st -> rn_ok s fr = true) /\
+  (forall f, f < length s.(futs) -> (getf s f).(res) = FNone -> nsig f s >= 1).
 Proof.
-  induction st as [|x st IH]; cbn; [done|]. destruct (settled x); [intros H; right; by apply IH|]. intros [= -> _]. left.
-Qed.
-Lemma np_two P s a c sa sc : a <> c -> stacks s !! a = Some sa -> stacks s !! c = Some sc -> cntf P sa >= 1 -> cntf P sc >= 1 -> np P s >= 2.
-Proof.
-  intros Hne Ha Hc H1 H2. pose proof (npl_insert P (stacks s) a sa [] Ha) as H. cbn in H.
-  assert (Hc' : <[a := []]> (stacks s) !! c = Some sc) by (by rewrite list_lookup_insert_ne).
-  pose proof (npl_ge P _ _ _ Hc'). unfold np. lia.
-Qed.
-Definition awaits (s : state) (c f : nat) : Prop := exists st, stacks s !! c = Some st /\ (FAwRet f ∈ st \/ FPark f ∈ st).
-
-Lemma tw_update s s' a old new :
-  stacks s !! a = Some old -> stacks s' = <[a := new]> (stacks s) ->
-  tw_ok s' a new = true ->
-  (forall c f, c <> a -> awaits s c f -> tw s c f = true -> tw s' c f = true) ->
-  (forall c st, stacks s !! c = Some st -> tw_ok s c st = true) ->
-  forall c st, stacks s' !! c = Some st -> tw_ok s' c st = true.
-Proof.
-  intros Ha Hs Hnew Hstab HI c st Hc. rewrite Hs in Hc. destruct (decide (c = a)) as [->|Hne].
-  - rewrite list_lookup_insert in Hc by (by eapply lookup_lt_Some). by injection Hc as <-.
-  - rewrite list_lookup_insert_ne in Hc by done. pose proof (HI c st Hc) as H. unfold tw_ok in *.
-    destruct (skips st) as [|fr r] eqn:E; [done|]. pose proof (skips_sub _ _ _ E) as Hin.
-    destruct fr; try done; (apply Hstab; [done|exists st; split; [done|by (left + right)]|done]).
-Qed.
-
-(* the atoms of [tw] *)
-Lemma tw_mono s s' c f :
-  (tokb s c = true -> tokb s' c = true) -> np (is_unpark c) s <= np (is_unpark c) s' ->
-  np (is_wake (WTask c)) s <= np (is_wake (WTask c)) s' ->
-  ((getf s f).(res) = FNone -> (getf s f).(fwaker) = Some (WTask c) -> (getf s' f).(res) = FNone /\ (getf s' f).(fwaker) = Some (WTask c)) ->
-  tw s c f = true -> tw s' c f = true.
-Proof.
-  intros Ht Hu Hw Hc. unfold tw. rewrite !orb_true_iff, !andb_true_iff, !bool_decide_eq_true.
-  intros [[[H|H]|H]|[H1 H2]].
-  - left; left; left. by apply Ht.
-  - left; left; right. by eapply posb_mono.
-  - left; right. by eapply posb_mono.
-  - right. by apply Hc.
+  intros HT scripts npool nev tr s Hr.
+  assert (H : Inv_own s /\ (forall c st fr, stacks s !! c = Some st -> fr ∈ st -> rn_ok s fr = true) /\
+              (forall f, f < length s.(futs) -> (getf s f).(res) = FNone -> nsig f s >= 1)); [|by destruct H as (_ & ? & ?)].
+  revert Hr. apply (run_inv (fun s => Inv_own s /\ (forall c st fr, stacks s !! c = Some st -> fr ∈ st -> rn_ok s fr = true) /\
+              (forall f, f < length s.(futs) -> (getf s f).(res) = FNone -> nsig f s >= 1)) T).
+  - intros s0 a s1 (H1 & H2 & H3) Hs. split; [by eapply step_own|]. split; [by eapply step_task_rn|by eapply step_task_sig].
+  - split; [apply init_own|]. split.
+    + intros c st fr Hc Hin. apply rn_nonmarker.
+      unfold stacks, init in Hc; cbn in Hc. rewrite list_lookup_fmap in Hc.
+      destruct ((((fun sc => mk_actor [FTop sc]) <$> scripts) ++ replicate npool (mk_actor [FPIdle])) !! c) as [ac|] eqn:E; [|done].
+      cbn in Hc. injection Hc as <-. apply elem_of_list_lookup_2 in E. apply elem_of_app in E as [E|E].
+      * apply elem_of_list_fmap in E as (sc & -> & _). by apply elem_of_list_singleton in Hin as ->.
+      * apply elem_of_replicate in E as [-> _]. by apply elem_of_list_singleton in Hin as ->.
+    + intros f Hf. cbn in Hf. lia.
 Qed.
